@@ -196,6 +196,11 @@ def tail_rules(attrs, await_interference=False, cache_static=None, stats_static=
         R('R0.path', r'\bcachelito_core :: ', '', 'crate path prefix'),
         R('R9.opt_none', r'Option :: < \w+ > :: None', 'None', 'typed None'),
     ]
+    if attrs.get('macro') == 'cache':
+        # sync flavours: a direct use of the store static in the wrapper (the static handed to ...Cache::new and the store field
+        # of __cache are the same object; lock acquisition erased as in R1 -- its order is judged by the lock obligations)
+        rules.append(R('R9.static_alias_sync_read', r'\bGLOBAL_OR_THREAD_CACHE_\w+ \. read \( \)', '(&__cache.STORE_FIELD)', 'store static .read() -> & borrow of the store field of __cache'))
+        rules.append(R('R9.static_alias_sync_write', r'\bGLOBAL_OR_THREAD_CACHE_\w+ \. write \( \)', '(&mut __cache.STORE_FIELD)', 'store static .write() -> &mut borrow of the store field of __cache'))
     if cache_static:
         # the store static handed to ...Cache::new(&STATIC, ..) and the `cache` field of __cache are the same object
         rules.append(R('R9.static_alias', r'\b%s \. ' % cache_static, '__cache.cache.', 'direct use of the store static -> the `cache` field of __cache (same object: first constructor argument)'))
@@ -209,7 +214,10 @@ def tail_rules(attrs, await_interference=False, cache_static=None, stats_static=
 
 
 def apply_tail_rules(tail, attrs, log, base_line, qual, await_interference=False, cache_static=None, stats_static=None):
+    store_field = 'cache' if attrs.get('scope') == 'thread' else 'map'
     for r in tail_rules(attrs, await_interference, cache_static, stats_static):
+        if isinstance(r.repl, str) and 'STORE_FIELD' in r.repl:
+            r.repl = r.repl.replace('STORE_FIELD', store_field)
         if r.repl is None:
             if await_interference:
                 def repl(m):
